@@ -221,6 +221,12 @@ def c_eqhash(cex, obs):
     rel = cex.get('relation', 'equal')
     for prof, o in obs.items():
         if o.get('panicked'): return True, '%s build panics: %s' % (prof, o.get('message'))
+        if rel == 'stable':
+            if o['ab0'] != o['ab1']: return True, '%s build: a == b was %s before and is %s after the observer history (%r on a, %r on b)' % (prof, o['ab0'], o['ab1'], cex.get('history'), cex.get('history_b'))
+            if o['ab1'] != o['ba1']: return True, '%s build: a == b and b == a disagree after the history' % prof
+            if o['hash_a0'] != o['hash_a1'] or o['hash_b0'] != o['hash_b1']: return True, '%s build: a hash changed because observers were called' % prof
+            if o['ab1'] and o['hash_a1'] != o['hash_b1']: return True, '%s build: equal values with different hashes' % prof
+            continue
         if rel == 'equal':
             if not o['ab']: return True, '%s build: a == b is false for values built from the same ingredients (history %r)' % (prof, cex.get('history'))
             if not o['ba']: return True, '%s build: b == a is false' % prof
